@@ -55,7 +55,7 @@ Proof. reflexivity. Qed.
 
 Lemma decide_sync_never_raises : forall s e, decide_sync s <> Raise e.
 Proof.
-  intros s e. rewrite decide_sync_eq. destruct (ss_files s (ss_truth s)); [|discriminate].
+  intros s e. rewrite decide_sync_eq. destruct (ss_files s (ss_truth s)) as [c0|]; [|discriminate].
   destruct (Nat.ltb (files_total s) 2); [discriminate|].
   destruct (negb (ss_truth_file_exists s)); [discriminate|].
   destruct (existsb (nameless s) kinds_in_order); discriminate.
@@ -67,13 +67,13 @@ Lemma decide_sync_run_iff : forall s,
     /\ forall k, nameless s k = false.
 Proof.
   intros s. rewrite decide_sync_eq. split.
-  - intros H. destruct (ss_files s (ss_truth s)); [|discriminate H].
+  - intros H. destruct (ss_files s (ss_truth s)) as [c0|]; [|discriminate H].
     destruct (Nat.ltb (files_total s) 2) eqn:E1; [discriminate H|].
     destruct (ss_truth_file_exists s); [|discriminate H]. cbn [negb] in H.
     destruct (existsb (nameless s) kinds_in_order) eqn:E2; [discriminate H|].
     split; [discriminate|]. split; [apply Nat.ltb_ge; exact E1|]. split; [reflexivity|].
     intros k. apply (existsb_false_In _ _ _ _ E2 (kind_in_order k)).
-  - intros [H1 [H2 [H3 H4]]]. destruct (ss_files s (ss_truth s)); [|contradiction H1; reflexivity].
+  - intros [H1 [H2 [H3 H4]]]. destruct (ss_files s (ss_truth s)) as [c0|]; [|contradiction H1; reflexivity].
     apply Nat.ltb_ge in H2. rewrite H2, H3. cbn [negb].
     destruct (existsb (nameless s) kinds_in_order) eqn:E2; [|reflexivity].
     apply existsb_exists in E2. destruct E2 as [k [_ Hk]]. rewrite H4 in Hk. discriminate Hk.
@@ -86,20 +86,20 @@ Lemma decide_sync_reject_iff : forall s,
     \/ exists k, ss_files s k <> None /\ ss_names s k = None.
 Proof.
   intros s. rewrite decide_sync_eq. split.
-  - intros H. destruct (ss_files s (ss_truth s)); [|left; reflexivity]. right.
+  - intros H. destruct (ss_files s (ss_truth s)) as [c0|]; [|left; reflexivity]. right.
     destruct (Nat.ltb (files_total s) 2) eqn:E1; [left; apply Nat.ltb_lt; exact E1|]. right.
     destruct (ss_truth_file_exists s); [|left; reflexivity]. right. cbn [negb] in H.
     destruct (existsb (nameless s) kinds_in_order) eqn:E2; [|discriminate H].
     apply existsb_exists in E2. destruct E2 as [k [_ Hk]]. exists k. unfold nameless in Hk.
-    destruct (ss_files s k); [|discriminate Hk]. destruct (ss_names s k); [discriminate Hk|].
+    destruct (ss_files s k) as [c|]; [|discriminate Hk]. destruct (ss_names s k) as [c1|]; [discriminate Hk|].
     split; [discriminate|reflexivity].
-  - intros H. destruct (ss_files s (ss_truth s)) eqn:E0; [|reflexivity].
+  - intros H. destruct (ss_files s (ss_truth s)) as [c0|] eqn:E0; [|reflexivity].
     destruct H as [H|[H|[H|[k [Hf Hn]]]]]; [discriminate H| | |].
     + apply Nat.ltb_lt in H. rewrite H. reflexivity.
     + rewrite H. destruct (Nat.ltb (files_total s) 2); reflexivity.
     + assert (E2 : existsb (nameless s) kinds_in_order = true).
       { apply existsb_exists. exists k. split; [apply kind_in_order|]. unfold nameless. rewrite Hn.
-        destruct (ss_files s k); [reflexivity|contradiction Hf; reflexivity]. }
+        destruct (ss_files s k) as [c|]; [reflexivity|contradiction Hf; reflexivity]. }
       rewrite E2. destruct (Nat.ltb (files_total s) 2); [reflexivity|].
       destruct (negb (ss_truth_file_exists s)); reflexivity.
 Qed.
@@ -124,7 +124,7 @@ Proof.
   intros s l. induction l as [|k r IHr]; intros H; [reflexivity|].
   cbn [fold_right]. rewrite IHr by (intros k' Hk'; apply H; right; exact Hk').
   specialize (H k (or_introl eq_refl)).
-  destruct (ss_files s k); [|reflexivity].
+  destruct (ss_files s k) as [c|]; [|reflexivity].
   destruct (ss_names s k) as [[|n]|]; [discriminate H|reflexivity|discriminate H].
 Qed.
 
@@ -143,11 +143,11 @@ Proof.
   intros s Hwf H. apply decide_sync_run_iff in H. destruct H as [H1 [_ [_ H4]]].
   unfold names_complete. apply andb_true_iff. split.
   - apply forallb_forall. intros k _. specialize (H4 k). unfold nameless in H4.
-    destruct (ss_files s k); [|reflexivity].
+    destruct (ss_files s k) as [c|]; [|reflexivity].
     destruct (ss_names s k) as [[|n]|] eqn:EN; [|reflexivity|discriminate H4].
     specialize (Hwf k 0 EN). lia.
   - specialize (H4 (ss_truth s)). unfold nameless in H4.
-    destruct (ss_files s (ss_truth s)); [|contradiction H1; reflexivity].
+    destruct (ss_files s (ss_truth s)) as [c0|]; [|contradiction H1; reflexivity].
     destruct (ss_names s (ss_truth s)) as [[|n]|] eqn:EN; [|reflexivity|discriminate H4].
     specialize (Hwf (ss_truth s) 0 EN). lia.
 Qed.
